@@ -412,6 +412,10 @@ func RollCoC(src *rand.PCGSource, isBonus bool, diceNum IntType, mode int) (IntT
 
 	for i := IntType(0); i < diceNum; i++ {
 		n := Roll(src, 10, mode)
+		if mode == -1 {
+			// 十位骰的最小面是 0 (掷出 10 时读作 0)，而不是 1
+			n = 10
+		}
 
 		if n == 10 {
 			num10Exists = true
